@@ -224,6 +224,13 @@ Definition step (cfg : config) (e : env) (w : world) (o : op) : world * out :=
   | OCallback => (w, OutDeposit)
   end.
 
+(* the same on a chain some of whose post-dispatch hooks charge for gas ([step] is [step_gas no_gas]) *)
+Definition step_gas (g : gas_fn) (cfg : config) (e : env) (w : world) (o : op) : world * out :=
+  match o with
+  | ORecv p tape lie => let r := recv_gas g cfg e w p tape lie in (rr_world r, OutRecv r)
+  | _ => step cfg e w o
+  end.
+
 Fixpoint run_ops (cfg : config) (e : env) (w : world) (ops : list op) : world * list out :=
   match ops with
   | [] => (w, [])
